@@ -601,7 +601,11 @@ func main() {
 	}
 	a := mk(1, "")
 	emit(event{"ev": "scenario", "name": scenario})
-	if !a.start() {
+	var aenv []string
+	if scenario == "conf-burst" {
+		aenv = []string{"VERIF_APPLY_DELAY_MS=600"} // the bootstrap node (the zero group's leader) applies late
+	}
+	if !a.start(aenv...) {
 		emit(event{"ev": "end"})
 		return
 	}
@@ -1112,6 +1116,31 @@ func main() {
 		time.Sleep(6 * time.Second) // the slow member catches up
 		observe(ps, "join")
 		create(a, 2, 2)
+		observe(ps, "create")
+	case "conf-burst":
+		// two membership changes in quick succession while the leader of the zero group applies late: raft accepts
+		// only one configuration change at a time and silently drops a second one that arrives before the leader
+		// has applied the first.  A removal is requested, and before it is applied a new node asks to join
+		d := mk(4, "127.0.0.1:"+a.port)
+		ctx, cancel := context.WithTimeout(context.Background(), 5*time.Second)
+		_, err := pb.NewNodesManagerClient(a.conn).RemoveNode(ctx, &pb.Node{Id: 3})
+		cancel()
+		okv, es := 1, ""
+		if err != nil {
+			okv, es = 0, err.Error()
+		}
+		emit(event{"ev": "left", "node": 3, "ok": okv, "err": es})
+		okd := d.start()
+		okv = 0
+		if okd {
+			okv = 1
+			ps = append(ps, d)
+		}
+		emit(event{"ev": "joined", "node": 4, "addr": ":" + d.port, "ok": okv})
+		time.Sleep(3 * time.Second)
+		c.kill()
+		observe(ps, "join")
+		create(b, 2, 2)
 		observe(ps, "create")
 	case "leave":
 		ctx, cancel := context.WithTimeout(context.Background(), 5*time.Second)
